@@ -1,6 +1,6 @@
 #include "recl_common.hpp"
 using namespace rh;
-namespace {
+namespace hx_recl_b {
 namespace xr = xenium::reclamation;
 using ebr0 = rc::EBR<0>; using ebr2 = rc::EBR<2>; using nebr0 = rc::NEBR<0>; using nebr1 = rc::NEBR<1>; using debra0 = rc::DEBRA<0>; using debra1 = rc::DEBRA<1>;
 using geb_a = rc::GEB<0, xr::scan::all_threads, xr::abandon::always, xr::region_extension::none>;
